@@ -148,7 +148,7 @@ def gen_code(model):
          "static int g_vu_shape = -1; static unsigned g_vu_k = 0;",
          "static size_t vu_len(size_t cap) { unsigned k = g_vu_k++; if (g_vu_shape < 0) { size_t n = nondet_size_t(); __CPROVER_assume(n <= cap); return n; }",
          "  if (g_vu_shape == 0) return 0; if (g_vu_shape == 1) return cap; return (k + (unsigned)g_vu_shape) % (cap + 1); }",
-         "static void vu_havoc_string(std::string &s) { s._n = vu_len(std::string::CAP);",
+         "static void vu_havoc_string(std::string &s) { s._trunc = false; s._n = vu_len(std::string::CAP);",
          "  for (size_t i = 0; i < std::string::CAP; i++) { char c = nondet_char(); s._d[i] = (i < s._n) ? c : (char)0; } s._d[std::string::CAP] = 0; }",
          "static void vu_havoc_intvec(std::vector<int> &v) { v._n = vu_len(std::vector<int>::CAP); for (size_t i = 0; i < std::vector<int>::CAP; i++) v._d[i] = nondet_int(); }",
          "static void vu_havoc_strvec(std::vector<std::string> &v) { v._n = vu_len(std::vector<std::string>::CAP); for (size_t i = 0; i < std::vector<std::string>::CAP; i++) vu_havoc_string(v._d[i]); }",
